@@ -2,7 +2,41 @@ package core
 
 // C06: the cycle detector reports a cycle iff there is one, and what it reports is a cycle.
 
-func init() { vpRegister("vpH_C06_cycles", vpH_C06_cycles) }
+func init() {
+	vpRegister("vpH_C06_cycles", vpH_C06_cycles)
+	vpRegister("vpH_C06_kinds", vpH_C06_kinds)
+}
+
+// vpH_C06_kinds: every kind of dependency edge (plain, source-only, data-only,
+// internal, run-time) closes a cycle just the same - the build waits on all of
+// them - so the detector must see all of them.
+func vpH_C06_kinds() {
+	n := vpBound("nodes")
+	g, ts := vpMkTargets(n, nil)
+	adj := make([][]bool, n)
+	for i := range adj {
+		adj[i] = make([]bool, n)
+	}
+	for i := 0; i < n; i++ {
+		for j := 0; j < n; j++ {
+			k := vpChoice("edge", 6) // 0 absent, 1..5 the kinds
+			if k > 0 {
+				adj[i][j] = true
+				vpAddEdgeKind(ts[i], ts[j], k-1)
+			}
+		}
+	}
+	cl := vpClosure(adj)
+	cyclic := false
+	for i := 0; i < n; i++ {
+		if cl[i][i] {
+			cyclic = true
+		}
+	}
+	det := &cycleDetector{graph: g}
+	err := det.Check()
+	vpAssert("reported-iff-cyclic-whatever-the-edge-kinds", (err != nil) == cyclic)
+}
 
 func vpH_C06_cycles() {
 	n := vpBound("nodes")
